@@ -104,6 +104,13 @@ Proof.
   exact (streett_region_exact nc nx ny moore plus_one E S holds goals c Hc HR HP s).
 Qed.
 
+(* "the environment prevents W" is not a vacuous notion: no state is won by
+   both players (the two strategies are played against each other) *)
+Theorem C01_not_both_win : forall W s,
+  fst s < nx -> snd s < ny ->
+  comp_wins nx ny moore W s -> env_prevents nx ny moore W s -> False.
+Proof. intros W s. exact (not_both nx ny moore W s). Qed.
+
 End C01.
 
 Import ListNotations.
@@ -126,3 +133,4 @@ Print Assumptions C01_streett_fixpoint_exact.
 Print Assumptions C01_spec_outer_is_greatest_fixpoint.
 Print Assumptions C01_spec_middle_is_least_fixpoint.
 Print Assumptions C01_spec_inner_is_greatest_fixpoint.
+Print Assumptions C01_not_both_win.
